@@ -5,10 +5,11 @@ C06 -- genhkl_unique lists one reflection per Laue family, sorted by true sintl.
            orbit of L (acting on the right of the hkl row) on the box has exactly ONE member in the union
            of the Laue class's traversal cones (cones = fundamental domain)
  dispatch  every (Laue, cell_choice) pair that occurs in sglib selects exactly one cone table
- shell     the acceptance test is sintlH > sintlmin and sintlH <= sintlmax
- insync    at the append site the stored sintlH is sintl(unit_cell, .) of the stored hkl on every
-           path (forward must-analysis of the facts InSync(x) over the loop nest)
- sort      rows sorted by column 3 after concatenating hkl and stl; integer steps only
+ walk      genhkl_base, evaluated as a whole on band models (props/hklrun.py: every lattice point assigned to one of the
+           regions below-min .. beyond; sintl / sysabs answered from the model), lists every accepted cone point exactly
+           once and nothing else: sintlmin exclusive, sintlmax inclusive, every row, plane and cone reached
+ sort      in the value returned every row is keyed by the sin(theta)/lambda of its own hkl (the value the argsort
+           orders by), which is also its fourth column when output_stl is set; indices are integers
  unique    genhkl_unique passes the group's attributes and slices the stl column off iff output_stl == False
 """
 import ast
@@ -20,285 +21,13 @@ from xfabsa.core import AnalysisError
 EXHAUSTIVE = True
 
 
-# ---------------------------------------------------------------------------
-# in-sync analysis
-# ---------------------------------------------------------------------------
-
-class SyncState:
-    """abstract state of the in-sync analysis:
-       eq     partition of names known to hold equal values
-       sync   names X with  sintlH == sintl(unit_cell, X)
-       consts small-integer flags with a known value (trace partitioning key)
-       exprs  name -> (dump of the pure expression it was bound to, version stamp of its free names)
-       ver    version counter per name"""
-
-    def __init__(self):
-        self.eq = {}
-        self.sync = set()
-        self.consts = {}
-        self.exprs = {}
-        self.ver = {}
-
-    def copy(self):
-        c = SyncState()
-        c.eq = dict(self.eq)
-        c.sync = set(self.sync)
-        c.consts = dict(self.consts)
-        c.exprs = dict(self.exprs)
-        c.ver = dict(self.ver)
-        return c
-
-    def cls(self, n):
-        return self.eq.get(n, frozenset([n]))
-
-    def bump(self, n):
-        self.ver[n] = self.ver.get(n, 0) + 1
-
-    def remove(self, n):
-        c = self.cls(n)
-        rest = c - {n}
-        for m in rest:
-            self.eq[m] = frozenset(rest)
-        self.eq[n] = frozenset([n])
-        self.sync.discard(n)
-        self.exprs.pop(n, None)
-
-    def join_to(self, n, m):
-        """n := m"""
-        if n == m:
-            return
-        self.remove(n)
-        c = self.cls(m) | {n}
-        for x in c:
-            self.eq[x] = frozenset(c)
-        if m in self.sync:
-            self.sync.add(n)
-
-    def key(self):
-        return tuple(sorted(self.consts.items()))
-
-    def meet(self, other):
-        out = SyncState()
-        for n in set(self.eq) | set(other.eq):
-            out.eq[n] = frozenset((self.cls(n) & other.cls(n)) | {n})
-        out.sync = self.sync & other.sync
-        out.consts = {k: v for k, v in self.consts.items() if other.consts.get(k) == v}
-        out.exprs = {k: v for k, v in self.exprs.items() if other.exprs.get(k) == v}
-        out.ver = {k: max(self.ver.get(k, 0), other.ver.get(k, 0)) for k in set(self.ver) | set(other.ver)}
-        return out
-
-    def same(self, other):
-        names = set(self.eq) | set(other.eq)
-        return self.sync == other.sync and self.consts == other.consts and all(self.cls(n) == other.cls(n) for n in names)
-
-
-def merge_states(states):
-    """merge states that agree on the flag constants (trace partitioning by flags)"""
-    by = {}
-    for s in states:
-        k = s.key()
-        by[k] = by[k].meet(s) if k in by else s
-    return list(by.values())
-
-
-def flag_test(test, s):
-    """truth value of `<name> ==|!= <int>` under the known flag constants, else None"""
-    if isinstance(test, ast.Compare) and len(test.ops) == 1 and isinstance(test.left, ast.Name) \
-            and isinstance(test.comparators[0], ast.Constant) and isinstance(test.comparators[0].value, int) \
-            and isinstance(test.ops[0], (ast.Eq, ast.NotEq)):
-        v = s.consts.get(test.left.id)
-        if v is None:
-            return None
-        r = v == test.comparators[0].value
-        return r if isinstance(test.ops[0], ast.Eq) else not r
-    return None
-
-
-def refine(test, s, truth):
-    """assume the flag test has the given truth value"""
-    if isinstance(test, ast.Compare) and len(test.ops) == 1 and isinstance(test.left, ast.Name) \
-            and isinstance(test.comparators[0], ast.Constant) and isinstance(test.comparators[0].value, int):
-        if (isinstance(test.ops[0], ast.Eq) and truth) or (isinstance(test.ops[0], ast.NotEq) and not truth):
-            s.consts[test.left.id] = test.comparators[0].value
-    return s
-
-
-def analyse_insync(ctx, mod, fn, short, sintl_var="sintlH"):
-    """forward must-analysis, path-sensitive in the small-integer loop flags.
-    -> {(line of append, appended name): in sync on every path reaching it}"""
-    cell = fn.args.args[0].arg
-    verdicts = {}
-    PURE = (ast.Name, ast.Subscript, ast.Constant, ast.Tuple, ast.Slice, ast.Load, ast.UnaryOp, ast.USub)
-    PURE_X = PURE + (ast.BinOp, ast.Add, ast.Sub)
-
-    def is_hkl_append(st):
-        if isinstance(st, ast.Assign) and isinstance(st.value, ast.Call) and getattr(st.value.func, "attr", "") == "concatenate":
-            a = st.value.args[0] if st.value.args else None
-            if isinstance(a, ast.Tuple) and len(a.elts) == 2 and isinstance(a.elts[1], ast.List) and len(a.elts[1].elts) == 1:
-                inner = a.elts[1].elts[0]
-                base = inner.operand if isinstance(inner, ast.UnaryOp) else inner
-                if isinstance(base, ast.Name) and isinstance(a.elts[0], ast.Name) and isinstance(st.targets[0], ast.Name) \
-                        and a.elts[0].id == st.targets[0].id and base.id != sintl_var:
-                    return base.id
-        return None
-
-    def transfer(st, s):
-        if isinstance(st, ast.Assign) and len(st.targets) == 1 and isinstance(st.targets[0], ast.Name):
-            tgt = st.targets[0].id
-            v = st.value
-            if isinstance(v, ast.Constant) and isinstance(v.value, int) and not isinstance(v.value, bool):
-                s.remove(tgt)
-                s.consts[tgt] = v.value
-                s.bump(tgt)
-                return
-            s.consts.pop(tgt, None)
-            if tgt == sintl_var:
-                if isinstance(v, ast.Call) and getattr(v.func, "id", "") == "sintl" and len(v.args) == 2 \
-                        and isinstance(v.args[0], ast.Name) and v.args[0].id == cell:
-                    arg = v.args[1]
-                    if isinstance(arg, ast.Name):
-                        s.sync = set(s.cls(arg.id))
-                    elif all(isinstance(n_, PURE + (ast.BinOp, ast.Add, ast.Sub)) for n_ in ast.walk(arg)):
-                        # sintl(cell, <expression>): in sync with every name currently bound to that very expression
-                        tmp = "$arg@%d" % v.lineno
-                        transfer(ast.Assign(targets=[ast.Name(id=tmp, ctx=ast.Store())], value=arg, lineno=v.lineno), s)
-                        s.sync = set(s.cls(tmp))
-                    else:
-                        s.sync = set()
-                else:
-                    s.sync = set()
-                return
-            if isinstance(v, ast.Name):
-                s.join_to(tgt, v.id)
-                s.bump(tgt)
-                return
-            s.remove(tgt)
-            free = sorted({n.id for n in ast.walk(v) if isinstance(n, ast.Name)})
-            if tgt not in free and all(isinstance(n, PURE_X) for n in ast.walk(v)):
-                key = ast.dump(v)
-                stamp = tuple(s.ver.get(f, 0) for f in free)
-                for other, (k2, st2) in list(s.exprs.items()):
-                    if k2 == key and st2 == stamp and other != tgt:
-                        s.join_to(tgt, other)
-                        break
-                s.exprs[tgt] = (key, stamp)
-            s.bump(tgt)
-            return
-        if isinstance(st, (ast.Assign, ast.AugAssign)):
-            targets = st.targets if isinstance(st, ast.Assign) else [st.target]
-            for t in targets:
-                for x in ast.walk(t):
-                    if isinstance(x, ast.Name) and isinstance(x.ctx, ast.Store) or (isinstance(x, ast.Name) and isinstance(st, ast.AugAssign)):
-                        if x.id == sintl_var:
-                            s.sync = set()
-                        else:
-                            s.remove(x.id)
-                        s.consts.pop(x.id, None)
-                        s.bump(x.id)
-                    elif isinstance(x, ast.Name) and isinstance(t, ast.Subscript) and x is t.value:
-                        # element store mutates the array: it leaves every equality / sync fact
-                        s.remove(x.id)
-                        s.bump(x.id)
-
-    # abrupt completion: every block / statement returns (states falling through, states at `break`, states at `continue`);
-    # a `return` ends the path
-    def block(stmts, states):
-        brk, cnt = [], []
-        for st in stmts:
-            states, b_, c_ = stmt(st, states)
-            brk += b_
-            cnt += c_
-            if not states:
-                break
-        return states, brk, cnt
-
-    def stmt(st, states):
-        if isinstance(st, ast.Break):
-            return [], [s.copy() for s in states], []
-        if isinstance(st, ast.Continue):
-            return [], [], [s.copy() for s in states]
-        if isinstance(st, (ast.Return, ast.Raise)):
-            return [], [], []
-        if isinstance(st, ast.If):
-            outs, brk, cnt = [], [], []
-            for s in states:
-                t = flag_test(st.test, s)
-                if t is not False:
-                    o, b_, c_ = block(st.body, [refine(st.test, s.copy(), True)])
-                    outs += o; brk += b_; cnt += c_
-                if t is not True:
-                    o, b_, c_ = block(st.orelse, [refine(st.test, s.copy(), False)])
-                    outs += o; brk += b_; cnt += c_
-            return merge_states(outs), merge_states(brk), merge_states(cnt)
-        if isinstance(st, (ast.While, ast.For)):
-            test = st.test if isinstance(st, ast.While) else None
-            always = isinstance(test, ast.Constant) and bool(test.value) is True
-            head = []           # states at the loop head, merged per flag key
-            work = [s.copy() for s in states]
-            exits = []
-            broken = []
-            for _ in range(200):
-                changed = False
-                for s in work:
-                    k = s.key()
-                    cur = next((h for h in head if h.key() == k), None)
-                    if cur is None:
-                        head.append(s)
-                        changed = True
-                    else:
-                        m = cur.meet(s)
-                        if not m.same(cur):
-                            head[head.index(cur)] = m
-                            changed = True
-                if not changed:
-                    break
-                work = []
-                broken = []
-                for h in head:
-                    t = True if always else (flag_test(test, h) if test is not None else None)
-                    if t is not False:
-                        b = h.copy()
-                        if test is not None and not always:
-                            refine(test, b, True)
-                        if isinstance(st, ast.For):
-                            for x in ast.walk(st.target):
-                                if isinstance(x, ast.Name):
-                                    b.remove(x.id)
-                                    b.consts.pop(x.id, None)
-                                    b.bump(x.id)
-                        o, b_, c_ = block(st.body, [b])
-                        work += o + c_
-                        broken += b_
-            else:
-                raise AnalysisError("in-sync analysis did not converge")
-            for h in head:
-                t = True if always else (flag_test(test, h) if test is not None else None)
-                if t is not True:
-                    exits.append(refine(test, h.copy(), False) if test is not None else h.copy())
-            if st.orelse:
-                exits, b2, c2 = block(st.orelse, merge_states(exits))
-                return merge_states(exits + broken), b2, c2
-            return merge_states(exits + broken), [], []
-        name = is_hkl_append(st)
-        if name is not None:
-            for s in states:
-                k = (st.lineno, name)
-                verdicts[k] = verdicts.get(k, True) and (name in s.sync)
-        for s in states:
-            transfer(st, s)
-        return merge_states(states), [], []
-    block(core.body_wo_doc(fn), [SyncState()])
-    return verdicts
-
-
 def run(ctx):
     from xfabsa import numeric as _N
     _N.alias_rule(ctx, 'C06', ['xfab/tools.py', 'xfab/laue.py', 'xfab/sg.py'])
     ctx.rule("domain", "cones are a fundamental domain of the Laue group of each setting (every orbit meets them exactly once)")
     ctx.rule("dispatch", "every (Laue, cell_choice) of sglib selects exactly one cone table; generators are unimodular")
-    ctx.rule("shell", "acceptance test `sintlH > sintlmin and sintlH <= sintlmax`")
-    ctx.rule("insync", "InSync(hkl appended, sintlH) holds at every append on every path")
-    ctx.rule("sort", "H = concatenate((H, stl), 1); H = H[argsort(H, 0)[:, 3], :]")
+    ctx.rule("walk", "genhkl_base evaluated on band models lists every accepted cone point once and nothing else (min exclusive, max inclusive)")
+    ctx.rule("sort", "every returned row is sorted by the sin(theta)/lambda of its own hkl, which is also its fourth column")
     ctx.rule("expand", "genhkl_all expands every unique reflection over rot[:nuniq] and their negatives (union of the Laue families)")
     ctx.rule("unique", "genhkl_unique: genhkl_base(cell, spg.syscond, ..., spg attributes, output_stl=True); [:, :3] iff output_stl == False")
     Nbox = 4 if ctx.tier == "quick" else 10
@@ -369,37 +98,27 @@ def run(ctx):
         ctx.extra["box"] = Nbox
         ctx.extra["orbits_checked"] = n_orbits
         ctx.extra["distinct_point_groups"] = len(cache)
-    # ---- code rules, both modules (structural patterns with metavariables: local names are free)
+    # ---- the code, both modules
+    from props import hklrun
+    walk_results = hklrun.run_all([(rel, hklrun.rows_of(segs[short], settings)) for rel, short, _tp in N.MODULES], ctx.tier)
+    ctx.extra["band_model_runs"] = len(walk_results)
+    ctx.floor("band model runs", len(walk_results), 2 * 13 * 2)
     for rel, short, _tp in N.MODULES:
         mod = core.module(rel)
         fn = mod.func("genhkl_base")
         where = core.loc(mod, fn)
         npa = mod.np_alias
-        # shell: every test on the running sin(theta)/lambda evaluated on the regions of its value (props/hklwalk.py)
-        from props.hklwalk import analyse_tests, analyse_tail, analyse_steps
-        shell_tests, svars = analyse_tests(ctx, mod, short, emit=("shell",))
-        tests = [n_ for n_ in ast.walk(fn) if isinstance(n_, ast.If) and any(n_.test is t_ for t_ in shell_tests)]
-        if len(tests) != 1 or len(svars) != 1:
-            raise AnalysisError("%s.genhkl_base: acceptance test / running sin(theta)/lambda variable not identified (%d tests, names %s)"
-                                % (short, len(tests), sorted(svars)))
-        sv = sorted(svars)[0]
-        # in-sync
-        verdicts = analyse_insync(ctx, mod, fn, short, sintl_var=sv)
-        if not verdicts:
-            raise AnalysisError("%s.genhkl_base: no append of an hkl row found" % short)
-        for (line, name), ok in sorted(verdicts.items()):
-            ctx.check(ok, "C06:insync:%s:%s" % (short, name),
-                      "at the append (line %d) %s is not guaranteed to be sintl(unit_cell, %s) on every path" % (line, sv, name),
-                      "%s:%d" % (mod.rel, line), sample={"append_line": line, "hkl": name, "in_sync": ok})
-        # the accepted row and its sin(theta)/lambda are appended together, inside the shell test
-        blk = tests[0].body
-        hk = [b for st in blk for b in [core.match_stmt("M_H = NP.concatenate((M_H, [M_X]))", st, {}, npa)] if b and b["M_X"] != sv]
-        sl_ = [b for st in blk for b in [core.match_stmt("M_S = NP.concatenate((M_S, [M_V]))", st, {}, npa)] if b and b["M_V"] == sv]
-        ok_pair = len(hk) == 1 and len(sl_) == 1 and len(blk) == 2
-        ctx.check(ok_pair, "C06:insync:%s:paired-append" % short,
-                  "the accepted hkl row and its sin(theta)/lambda are not appended together (and only they) under the shell test", where)
-        analyse_tail(ctx, mod, short)
-        analyse_steps(ctx, mod, short)
+        # the whole function evaluated on band models (props/hklrun.py): rows returned, their sort keys, the fourth column
+        by = hklrun.verdicts(walk_results, rel)
+        if not by:
+            raise AnalysisError("%s.genhkl_base: no combination of sglib could be evaluated on a band model" % short)
+        for (L, cc, cs), v in sorted(by.items()):
+            tag = "%s:%s:%s" % (short, L, cc)
+            ctx.check(v["ok_set"], "C06:walk:%s" % tag,
+                      "genhkl_base does not list every accepted point of the cones exactly once and nothing else (sintlmin exclusive, sintlmax inclusive): %s" % v["msg"],
+                      where, sample={"Laue": L, "cell_choice": cc, "models": v["runs"], "accepted_points": v["rows"]} if (L, cc) in (("-1", "standard"), ("m-3m", "standard")) else None)
+            ctx.check(v["sort_ok"], "C06:sort:%s" % tag,
+                      "rows are not [hkl | sin(theta)/lambda of that hkl] ordered by that value: %s" % v["sort_msg"], where)
         # genhkl_unique and genhkl_all: evaluated on a model group (props/hklwrap.py)
         from props.hklwrap import analyse_unique, analyse_expand
         analyse_unique(ctx, mod, short)
@@ -408,5 +127,5 @@ def run(ctx):
     ctx.assumptions += ["C04 (first nuniq rotations are the point group)", "numpy argsort/concatenate"]
     return ("Cones of every Laue class proven a fundamental domain of the Laue group of each of the %d settings on all orbits "
             "of the box |h|,|k|,|l| <= %d (%d orbit checks over %d distinct point groups); dispatch exhaustive and unimodular; "
-            "shell test operators; in-sync must-analysis of (hkl, sintl) at the append sites over the loop nest; sort and "
-            "genhkl_unique templates; both modules." % (len(settings), Nbox, n_orbits, len(cache)))
+            "genhkl_base evaluated as a whole on %d band models (rows returned, sort keys, fourth column); genhkl_unique and "
+            "genhkl_all evaluated on model groups; both modules." % (len(settings), Nbox, n_orbits, len(cache), len(walk_results)))
